@@ -70,25 +70,28 @@ type c08Path struct {
 	get  func(p *types.Project) (any, bool) // typed value, present
 }
 
+// resource names may contain dots (paths are built with escaped segments)
+var c08SvcName, c08NetName = "s", "n"
+
 func c08Svc(doc map[string]any) map[string]any {
-	return doc["services"].(map[string]any)["s"].(map[string]any)
+	return doc["services"].(map[string]any)[c08SvcName].(map[string]any)
 }
 
 var c08Bools = []c08Path{
-	{"services.s.privileged", func(d map[string]any, v any) { c08Svc(d)["privileged"] = v }, func(p *types.Project) (any, bool) { return p.Services["s"].Privileged, true }},
-	{"services.s.read_only", func(d map[string]any, v any) { c08Svc(d)["read_only"] = v }, func(p *types.Project) (any, bool) { return p.Services["s"].ReadOnly, true }},
-	{"services.s.tty", func(d map[string]any, v any) { c08Svc(d)["tty"] = v }, func(p *types.Project) (any, bool) { return p.Services["s"].Tty, true }},
-	{"services.s.stdin_open", func(d map[string]any, v any) { c08Svc(d)["stdin_open"] = v }, func(p *types.Project) (any, bool) { return p.Services["s"].StdinOpen, true }},
+	{"services.s.privileged", func(d map[string]any, v any) { c08Svc(d)["privileged"] = v }, func(p *types.Project) (any, bool) { return p.Services[c08SvcName].Privileged, true }},
+	{"services.s.read_only", func(d map[string]any, v any) { c08Svc(d)["read_only"] = v }, func(p *types.Project) (any, bool) { return p.Services[c08SvcName].ReadOnly, true }},
+	{"services.s.tty", func(d map[string]any, v any) { c08Svc(d)["tty"] = v }, func(p *types.Project) (any, bool) { return p.Services[c08SvcName].Tty, true }},
+	{"services.s.stdin_open", func(d map[string]any, v any) { c08Svc(d)["stdin_open"] = v }, func(p *types.Project) (any, bool) { return p.Services[c08SvcName].StdinOpen, true }},
 	{"services.s.init", func(d map[string]any, v any) { c08Svc(d)["init"] = v }, func(p *types.Project) (any, bool) {
-		x := p.Services["s"].Init
+		x := p.Services[c08SvcName].Init
 		if x == nil {
 			return nil, false
 		}
 		return *x, true
 	}},
-	{"services.s.oom_kill_disable", func(d map[string]any, v any) { c08Svc(d)["oom_kill_disable"] = v }, func(p *types.Project) (any, bool) { return p.Services["s"].OomKillDisable, true }},
+	{"services.s.oom_kill_disable", func(d map[string]any, v any) { c08Svc(d)["oom_kill_disable"] = v }, func(p *types.Project) (any, bool) { return p.Services[c08SvcName].OomKillDisable, true }},
 	{"services.s.healthcheck.disable", func(d map[string]any, v any) { c08Svc(d)["healthcheck"] = map[string]any{"disable": v} }, func(p *types.Project) (any, bool) {
-		h := p.Services["s"].HealthCheck
+		h := p.Services[c08SvcName].HealthCheck
 		if h == nil {
 			return nil, false
 		}
@@ -97,37 +100,37 @@ var c08Bools = []c08Path{
 	{"services.s.volumes.[].read_only", func(d map[string]any, v any) {
 		c08Svc(d)["volumes"] = []any{map[string]any{"type": "bind", "source": "/a", "target": "/b", "read_only": v}}
 	}, func(p *types.Project) (any, bool) {
-		vs := p.Services["s"].Volumes
+		vs := p.Services[c08SvcName].Volumes
 		if len(vs) != 1 {
 			return nil, false
 		}
 		return vs[0].ReadOnly, true
 	}},
-	{"networks.n.internal", func(d map[string]any, v any) { d["networks"] = map[string]any{"n": map[string]any{"internal": v}} }, func(p *types.Project) (any, bool) { return p.Networks["n"].Internal, true }},
-	{"networks.n.attachable", func(d map[string]any, v any) { d["networks"] = map[string]any{"n": map[string]any{"attachable": v}} }, func(p *types.Project) (any, bool) { return p.Networks["n"].Attachable, true }},
+	{"networks.n.internal", func(d map[string]any, v any) { d["networks"] = map[string]any{c08NetName: map[string]any{"internal": v}} }, func(p *types.Project) (any, bool) { return p.Networks[c08NetName].Internal, true }},
+	{"networks.n.attachable", func(d map[string]any, v any) { d["networks"] = map[string]any{c08NetName: map[string]any{"attachable": v}} }, func(p *types.Project) (any, bool) { return p.Networks[c08NetName].Attachable, true }},
 	{"volumes.v.external", func(d map[string]any, v any) { d["volumes"] = map[string]any{"v": map[string]any{"external": v}} }, func(p *types.Project) (any, bool) { return bool(p.Volumes["v"].External), true }},
 }
 
 var c08Ints = []c08Path{
 	{"services.s.scale", func(d map[string]any, v any) { c08Svc(d)["scale"] = v }, func(p *types.Project) (any, bool) {
-		x := p.Services["s"].Scale
+		x := p.Services[c08SvcName].Scale
 		if x == nil {
 			return nil, false
 		}
 		return *x, true
 	}},
 	{"services.s.deploy.replicas", func(d map[string]any, v any) { c08Svc(d)["deploy"] = map[string]any{"replicas": v} }, func(p *types.Project) (any, bool) {
-		dp := p.Services["s"].Deploy
+		dp := p.Services[c08SvcName].Deploy
 		if dp == nil || dp.Replicas == nil {
 			return nil, false
 		}
 		return *dp.Replicas, true
 	}},
-	{"services.s.pids_limit", func(d map[string]any, v any) { c08Svc(d)["pids_limit"] = v }, func(p *types.Project) (any, bool) { return int(p.Services["s"].PidsLimit), true }},
-	{"services.s.cpu_shares", func(d map[string]any, v any) { c08Svc(d)["cpu_shares"] = v }, func(p *types.Project) (any, bool) { return int(p.Services["s"].CPUShares), true }},
-	{"services.s.oom_score_adj", func(d map[string]any, v any) { c08Svc(d)["oom_score_adj"] = v }, func(p *types.Project) (any, bool) { return int(p.Services["s"].OomScoreAdj), true }},
+	{"services.s.pids_limit", func(d map[string]any, v any) { c08Svc(d)["pids_limit"] = v }, func(p *types.Project) (any, bool) { return int(p.Services[c08SvcName].PidsLimit), true }},
+	{"services.s.cpu_shares", func(d map[string]any, v any) { c08Svc(d)["cpu_shares"] = v }, func(p *types.Project) (any, bool) { return int(p.Services[c08SvcName].CPUShares), true }},
+	{"services.s.oom_score_adj", func(d map[string]any, v any) { c08Svc(d)["oom_score_adj"] = v }, func(p *types.Project) (any, bool) { return int(p.Services[c08SvcName].OomScoreAdj), true }},
 	{"services.s.ulimits.nofile", func(d map[string]any, v any) { c08Svc(d)["ulimits"] = map[string]any{"nofile": v} }, func(p *types.Project) (any, bool) {
-		u := p.Services["s"].Ulimits["nofile"]
+		u := p.Services[c08SvcName].Ulimits["nofile"]
 		if u == nil {
 			return nil, false
 		}
@@ -136,7 +139,7 @@ var c08Ints = []c08Path{
 	{"services.s.ulimits.nofile.soft", func(d map[string]any, v any) {
 		c08Svc(d)["ulimits"] = map[string]any{"nofile": map[string]any{"soft": v, "hard": 9}}
 	}, func(p *types.Project) (any, bool) {
-		u := p.Services["s"].Ulimits["nofile"]
+		u := p.Services[c08SvcName].Ulimits["nofile"]
 		if u == nil {
 			return nil, false
 		}
@@ -156,6 +159,11 @@ func VerifC08TypedVar() {
 		pth = c08Ints[vrtChoice("path", len(c08Ints))]
 		s = vrtString("val", vrtParam("IL", 3), "0123-+ a")
 	}
+	if vrtChoice("dottedNames", 2) == 1 {
+		c08SvcName, c08NetName = "web.api", "front.net"
+	} else {
+		c08SvcName, c08NetName = "s", "n"
+	}
 	form := vrtChoice("form", 3)
 	text := "${V}"
 	env := types.Mapping{"V": s}
@@ -170,7 +178,7 @@ func VerifC08TypedVar() {
 			env["V"] = s[1:]
 		}
 	}
-	doc := map[string]any{"services": map[string]any{"s": map[string]any{"image": "i"}}}
+	doc := map[string]any{"services": map[string]any{c08SvcName: map[string]any{"image": "i"}}}
 	pth.put(doc, text)
 	p, err := tcLoadProject(env, nil, doc)
 	vrtObserve("err", err != nil)
@@ -191,7 +199,15 @@ func VerifC08TypedVar() {
 		vrtCover("unconvertible")
 		vrtAssert("unconvertible-is-error", err != nil)
 		if err != nil {
-			vrtAssert("error-names-path", c08Contains(err.Error(), pth.name))
+			// the attribute name (last path segments) must appear; resource names may be escaped in the message
+			tailName := pth.name
+			for i := len(tailName) - 1; i >= 0; i-- {
+				if tailName[i] == '.' {
+					tailName = tailName[i+1:]
+					break
+				}
+			}
+			vrtAssert("error-names-path", c08Contains(err.Error(), tailName))
 		}
 		return
 	}
